@@ -16,11 +16,13 @@ CASE_TYPE = "c10_case"
 VERDICT = "c10_verdict"
 EXPLAIN = "c10_explain"
 CASES_PER_FILE = 120
-CASE_TIMEOUT = 20
-TIERS = {"quick": {"n": 1500}, "thorough": {"n": 30000}}
+CASE_TIMEOUT = 120
+TIERS = {"quick": {"n": 2000}, "thorough": {"n": 40000}}
 RULE = ("kind q: histories of add (with re-adds)/remove/pop/peek/len over 2..40 tasks and 1..12 priority levels, run on "
         "HeapPriorityQueue and SortedPriorityQueue with BarrelList._size_factor in {0,1,2,3,1520}; kind b: BarrelList "
-        "insert/pop/getitem/len/list at indices around sub-list borders. Non-trivial (q) = a live task was re-added or "
+        "insert/pop/getitem/len/list at indices around sub-list borders; kind big: 23 000..40 000 tasks added (rank patterns "
+        "descending / ascending / modular, optional re-adds and removals) to both classes at the REAL _size_factor=1520 and "
+        "drained, judged by Check.C10_Check.big_ok. Non-trivial (q) = a live task was re-added or "
         "removed, a pop returned a task while another live task had the same priority, and the sorted back end held "
         ">= 2 sub-lists at some point; (b) = >= 2 sub-lists and a pop and an insert at the end. "
         "Distinct = distinct canonical case hash")
@@ -106,7 +108,42 @@ def _gen_q(rng, tier):
             ops.append(["peek", rng.choice([None, None, 0, 1, 2]), rng.randrange(2)])
         else:
             ops.append(["len"])
+    if rng.random() < 0.5:
+        # drain: expose the whole hidden state through pops (bounded by the number of adds)
+        nadd = sum(1 for op in ops if op[0] == "add")
+        ops += [["pop", 1, 0] for _ in range(min(nadd, ntasks) + 1)] + [["len"]]
     return {"kind": "q", "factor": factor, "ops": ops}
+
+
+def _gen_large(rng, tier):
+    """a few hundred live entries, several sub-lists at _size_factor 4..16"""
+    factor = rng.choice([4, 8, 16])
+    n = rng.randint(150, 300) if tier == "quick" else rng.randint(300, 900)
+    nprio = rng.choice([1, 3, 10, 1000])
+    ops = []
+    for i in range(n):
+        ops.append(["add", i, rng.randrange(nprio) - 5, rng.randrange(6)])
+        if rng.random() < 0.15:
+            ops.append(["add", rng.randrange(i + 1), rng.randrange(nprio) - 5, rng.randrange(6)])
+        if rng.random() < 0.1:
+            ops.append(["remove", rng.randrange(i + 1)])
+        if rng.random() < 0.05:
+            ops.append(["peek", None, 0])
+    ops.append(["len"])
+    ops += [["pop", 2, 1] for _ in range(n + 1)] + [["len"]]
+    return {"kind": "q", "factor": factor, "ops": ops}
+
+
+def _gen_big(rng, tier, i):
+    n = rng.randint(23000, 26000) if tier == "quick" else rng.randint(23000, 40000)
+
+    def pat():
+        k = rng.choice(["desc", "desc", "asc", "mod"]) if i else "desc"
+        if k == "mod":
+            return ["mod", rng.choice([1, 2, 7, 50, 1000, 100003]), rng.choice([1, 3, 7919])]
+        return [k, rng.choice([1, 1, 2, 10, 1000, 50000])]
+    return {"kind": "big", "n": n, "f": pat(), "q": rng.choice([0, 0, 3, 10, 1000]), "g": pat(),
+            "r": rng.choice([0, 0, 3, 7, 500])}
 
 
 def _gen_b(rng, tier):
@@ -146,7 +183,14 @@ def _gen_b(rng, tier):
 
 
 def generate(rng, tier, n):
-    for i in range(n):
+    nbig = 0 if n < 1000 else (1 if tier == "quick" else 12)
+    nlarge = n // 400 if tier == "quick" else n // 200
+    # the expensive cases first, so that their coqc jobs overlap with all the others
+    for i in range(nbig):
+        yield _gen_big(rng, tier, i)
+    for i in range(nlarge):
+        yield _gen_large(rng, tier)
+    for i in range(n - nbig - nlarge):
         yield _gen_q(rng, tier) if rng.random() < 0.78 else _gen_b(rng, tier)
 
 
@@ -222,8 +266,54 @@ def _run_queue(cls, case, inv):
     return out, maxsub
 
 
+def big_rank(pat, i):
+    if pat[0] == "desc":
+        return -(i // pat[1])
+    if pat[0] == "asc":
+        return i // pat[1]
+    return (i * pat[2]) % pat[1]
+
+
+def big_task(i):
+    return i if i % 2 == 0 else "s%d" % i
+
+
+def _run_big(cls, case):
+    n, q_, r_ = case["n"], case["q"], case["r"]
+    q = cls()
+    inv = {}
+    for i in range(n):
+        inv[big_task(i)] = i
+        q.add(big_task(i), prio_obj(big_rank(case["f"], i), i % 5))
+    for i in range(n):
+        if q_ and i % q_ == 1:         # Spec.readded
+            q.add(big_task(i), prio_obj(big_rank(case["g"], i), i % 5))
+    for i in range(n):
+        if r_ and i % r_ == 2:         # Spec.removed
+            q.remove(big_task(i))
+    maxsub = 1
+    try:
+        maxsub = len(q._pq.lists)
+    except AttributeError:
+        pass
+    out = {"len": len(q), "pops": []}
+    for _ in range(n + 5):
+        try:
+            out["pops"].append(inv[q.pop()])
+        except IndexError:
+            break
+    dflt = ["dflt", 0]
+    out["end"] = bool(q.pop(dflt) is dflt and q.peek(default=dflt) is dflt and len(q) == 0)
+    return out, maxsub
+
+
 def run_impl(case):
     from boltons.listutils import BarrelList
+    if case["kind"] == "big":
+        from boltons.queueutils import HeapPriorityQueue, SortedPriorityQueue
+        heap, _ = _run_big(HeapPriorityQueue, case)
+        srt, maxsub = _run_big(SortedPriorityQueue, case)
+        return {"heap": heap, "sorted": srt, "maxsub": maxsub}
     old = BarrelList._size_factor
     BarrelList._size_factor = case["factor"]
     try:
@@ -313,7 +403,24 @@ def _bobs(o):
     return "BErr %s" % o[1]
 
 
+def _pat(p):
+    if p[0] == "desc":
+        return "(RDesc %s)" % cN(p[1])
+    if p[0] == "asc":
+        return "(RAsc %s)" % cN(p[1])
+    return "(RMod %s %s)" % (cN(p[1]), cN(p[2]))
+
+
+def _bigobs(o):
+    return "(mkBigObs %s %s %s)" % (cN(o["len"]), clist(cN(t) for t in o["pops"]), "true" if o["end"] else "false")
+
+
 def to_coq(case, obs):
+    if case["kind"] == "big":
+        par = "(mkBig %s %s %s %s %s)" % (cN(case["n"]), _pat(case["f"]), cN(case["q"]), _pat(case["g"]), cN(case["r"]))
+        if obs["heap"] == obs["sorted"]:
+            return "BigSame %s %s" % (par, _bigobs(obs["heap"]))
+        return "BigDiff %s %s %s" % (par, _bigobs(obs["heap"]), _bigobs(obs["sorted"]))
     lim = clist(cpair(cN(a), cN(b)) for a, b in obs["lim"])
     if case["kind"] == "q":
         ops = clist(_qop(op) for op in case["ops"])
@@ -327,7 +434,17 @@ def to_coq(case, obs):
 def corrupt(case, obs):
     """A wrong observation for the canary."""
     import copy
+    if case["kind"] == "big" and not case.get("canary"):
+        return None                   # 200 KB terms: the canary uses the ordinary cases (and corpus-sized big ones)
+    if case["kind"] != "big" and len(case["ops"]) > 150:
+        return None
     bad = copy.deepcopy(obs)
+    if case["kind"] == "big":
+        p = bad["sorted"]["pops"]
+        if len(p) < 2:
+            return None
+        p[-1], p[-2] = p[-2], p[-1]
+        return bad
     seq = bad["sorted"] if case["kind"] == "q" else bad["obs"]
     for o in reversed(seq):
         if o[0] in ("task", "val", "len"):
@@ -361,6 +478,8 @@ def _q_depth(case, obs):
 
 
 def nontrivial(case, obs):
+    if case["kind"] == "big":
+        return obs["maxsub"] >= 2
     if case["kind"] == "q":
         touched, tie = _q_depth(case, obs)
         return touched and tie and obs["maxsub"] >= 2
@@ -379,6 +498,13 @@ def distribution(d, case, obs):
         d.setdefault(group, {})
         d[group][k] = d[group].get(k, 0) + by
     bump("kind", case["kind"])
+    if case["kind"] == "big":
+        bump("size_factor", "1520 (class default)")
+        bump("max_sublists", "big:%d" % obs["maxsub"])
+        bump("big_patterns", "%s/%s q=%d r=%d" % (case["f"][0], case["g"][0], case["q"], case["r"]))
+        d["max_queue_len_big"] = max(d.get("max_queue_len_big", 0), case["n"])
+        bump("depth", "classes_differ", int(obs["heap"] != obs["sorted"]))
+        return
     bump("size_factor", str(case["factor"]))
     bump("max_sublists", str(min(obs["maxsub"], 8)) + ("+" if obs["maxsub"] >= 8 else ""))
     for op in case["ops"]:
@@ -400,8 +526,46 @@ def distribution(d, case, obs):
 
 
 def sample(case, obs):
+    if case["kind"] == "big":
+        return {"kind": "big", "params": {k: case[k] for k in ("n", "f", "q", "g", "r")}, "len": obs["sorted"]["len"],
+                "first_pops_heap": obs["heap"]["pops"][:12], "first_pops_sorted": obs["sorted"]["pops"][:12],
+                "max_sublists": obs["maxsub"]}
     if case["kind"] == "q":
         return {"kind": "q", "size_factor": case["factor"], "ops": case["ops"][:8], "heap": obs["heap"][:8],
                 "sorted": obs["sorted"][:8], "max_sublists": obs["maxsub"]}
     return {"kind": "b", "size_factor": case["factor"], "ops": case["ops"][:8], "obs": obs["obs"][:8],
             "max_sublists": obs["maxsub"]}
+
+
+def shrink(case):
+    """smaller candidates: big cases lose their re-adds/removals/pattern and some length; others lose chunks of ops"""
+    import json
+    if case["kind"] == "big":
+        for k, v in (("q", 0), ("r", 0), ("g", ["desc", 1]), ("f", ["desc", 1])):
+            if case[k] != v:
+                c = dict(case)
+                c[k] = v
+                yield c
+        for n in (case["n"] * 9 // 10, case["n"] - 500, case["n"] - 50):
+            if n > 0:
+                c = dict(case)
+                c["n"] = n
+                yield c
+        return
+    ops = case["ops"]
+    n = len(ops)
+    if n <= 1:
+        return
+    chunk, seen = max(1, n // 2), set()
+    while chunk >= 1:
+        for s in range(0, n, chunk):
+            cand = ops[:s] + ops[s + chunk:]
+            key = json.dumps(cand)
+            if cand and key not in seen:
+                seen.add(key)
+                c = dict(case)
+                c["ops"] = cand
+                yield c
+        chunk //= 2
+        if len(seen) > 60:
+            return
